@@ -372,6 +372,9 @@ func exec(t []string) string {
 	if t[0] == "mpsnap" {
 		return execMpSnap(t)
 	}
+	if t[0] == "wcont" {
+		return execWCont(t)
+	}
 	k := kindOf(t[1])
 	b := hx.UnHex(t[2])
 	_, n, err := decode(k, b)
@@ -388,6 +391,9 @@ func exec(t []string) string {
 func oracle(t []string, out string) *hx.Violation {
 	if out == "panic" {
 		return &hx.Violation{Kind: "decode-panic", Detail: hx.LastPanic()}
+	}
+	if t[0] == "wcont" {
+		return oracleWCont(t)
 	}
 	if t[0] == "mpsnap" {
 		f := strings.Fields(out)
@@ -455,6 +461,10 @@ func gen(g *hx.Gen) {
 		}
 		g.Emit("%s", op)
 	}
+	// restore-then-continue through the real checkpoint manager (wallet coin checkpoint)
+	for i := 0; i < g.N(12, 120); i++ {
+		genWCont(g)
+	}
 	// empty instances
 	for ki := range kinds {
 		c := kinds[ki].fresh()
@@ -466,6 +476,9 @@ func nontrivial(t []string, out string) bool {
 	if t[0] == "mpsnap" {
 		return len(t) > 1
 	}
+	if t[0] == "wcont" {
+		return len(t) > 3 && !strings.Contains(out, "coins 0 ")
+	}
 	return out != "err" && len(t[2]) > 64
 }
 
@@ -473,6 +486,9 @@ func bucket(t []string, out string) string {
 	f := strings.Fields(out)
 	if t[0] == "mpsnap" {
 		return "mpsnap/" + out
+	}
+	if t[0] == "wcont" {
+		return "wcont/" + f[0] + " " + f[1]
 	}
 	return t[1] + "/" + f[0]
 }
